@@ -256,6 +256,7 @@ int main(int argc, char** argv) {
             sc.bound_thorough = (ss.size() == 2) ? (calls <= 3 ? 3 : 2) : (ss.size() == 3 && calls <= 3) ? 2 : 1;
             sc.horizon = 5000;
             sc.whole = true;
+            sc.spurious_pass = thorough && ss.size() == 2;
             scs.push_back(sc);
         }
     }
@@ -281,6 +282,9 @@ int main(int argc, char** argv) {
                 sc.bound_thorough = n <= 2 ? 3 : 2;
                 sc.horizon = 20000;
                 sc.whole = (n <= 2);
+                // condition-variable waits may wake spuriously: one injected spurious wake-up per execution
+                sc.spurious_pass = std::string(v.nm) == "mutex.wait" && n >= 2 && n <= 3 && g <= 2;
+                sc.spurious_kmax = thorough ? 4 : 2;
                 scs.push_back(sc);
             }
         }
